@@ -469,7 +469,9 @@ func init() {
 		}
 		wg.Wait()
 		fmt.Printf("C15: ClientCmd.tla %d states (all extension subsets x option subsets x argument classes); %d cases run on the real client; %d hostile-argument calls\n", mc.Distinct, nrun, nh)
+		csCov := clientSessionEngine(run, tier)
 		run.Finish("model_checking", evid.Coverage{
+			"clientsession": csCov,
 			"states": mc.Distinct, "transitions": mc.Generated, "traces_validated_against_impl": nrun + nh,
 			"cases_in_model": len(cases), "cases_run": nrun, "hostile_calls": nh, "exhaustive": stride == 1,
 			"samples":     []interface{}{cases[1], cases[len(cases)/2]},
